@@ -34,7 +34,13 @@ func (s *StructV) With(name string, v Value) *StructV {
 // Distinct pointer parameters are assumed not to alias.
 type PtrV struct {
 	Nil *Term
-	Obj int // -1: no object (definitely nil)
+	Obj int     // -1: no object (definitely nil); -2: unresolved merge of two pointers (Alt)
+	Alt *ptrAlt // c ? A : B, resolved to a merged copy by State.resolvePtrs
+}
+
+type ptrAlt struct {
+	c    *Term
+	a, b *PtrV
 }
 
 // SliceV is a slice with value semantics: a length and an element function.
@@ -194,7 +200,7 @@ func mergeValue(c *Term, a, b Value) Value {
 		if y.Obj < 0 {
 			return &PtrV{Nil: Ite(c, x.Nil, True), Obj: x.Obj}
 		}
-		panic(unsupported("merge of pointers to different objects"))
+		return &PtrV{Nil: Ite(c, x.Nil, y.Nil), Obj: -2, Alt: &ptrAlt{c, x, y}}
 	case *TupleV:
 		y := b.(*TupleV)
 		n := &TupleV{}
